@@ -217,7 +217,7 @@ def run(ctx):
     if W is None:
         ctx.bad("R13.3", "worker", "the command worker closure was not found", detail="ANCHOR-MISSING")
     else:
-        c11.worker_loop(ctx, A, W, "R13.3")
+        c11.worker_loop(ctx, A, W, "R13.3", drain_liveness=True)
         drains = [bb for f, bb, t, m in A.recv_sites if m == "iter_next" and f is W]
         ctx.floor("R13.3", "drain receive sites in the worker", len(drains), 1)
         for bb in drains:
